@@ -94,21 +94,20 @@ def random_items(seed, n):
 
 def run(ctx):
     # 1. the theorems on the specification (with per-action coverage)
-    ctx.mc("text", MODULE, "MC_Escapes.cfg", overrides={"MaxTok": ctx.pick(2, 3)},
+    ctx.mc("text", MODULE, "MC_Escapes.cfg", timeout=ctx.pick(900, 1500), overrides={"MaxTok": ctx.pick(2, 3)},
            required_actions=["Extend", "JExtend", "JWrapList", "JWrapDict", "JAsKey"])
     # 2. spec -> code: every enumerated input through the real helpers (the theorems are checked again
     #    by this run on the larger bound)
     ntok = ctx.pick(3, 4)
-    states = ctx.gen_states("text", MODULE, "Gen_Escapes.cfg", overrides={"MaxTok": ntok})
+    states = ctx.gen_states("text", MODULE, "Gen_Escapes.cfg", timeout=ctx.pick(900, 1500), overrides={"MaxTok": ntok})
     paths, rel_items = td.paths_from_states(states)
     ctx.replay(paths, td.make_replayer(MODULE), nontrivial=lambda e, p: len(p[0]["args"][0]) >= 1)
     rel_traces = td.record(MODULE, rel_items)
-    td.validate_calls(ctx, MODULE, "Trace_Escapes", "Trace_Escapes.cfg", rel_traces, label="s2c-rel")
     ctx.cov["exhaustive"] = True
     # 3. code -> spec: random inputs
     items = random_items(ctx.seed * 7919 + 21, ctx.pick(300, 20000))
     traces = td.record(MODULE, items)
-    td.validate_calls(ctx, MODULE, "Trace_Escapes", "Trace_Escapes.cfg", traces)
+    td.validate_both(ctx, MODULE, "Trace_Escapes", "Trace_Escapes.cfg", rel_traces, traces)
     ctx.cov["rule"] = ("inputs: every concatenation of <= %d tokens of each kind's token table (html, url, utf8 bytes, "
                        "query-string bytes, name/value pair lists, argument types, JSON values nested <= 2), each through every "
                        "helper of its kind; plus seeded random inputs (text <= 60, bytes <= 40, JSON depth <= 3) validated by "
